@@ -246,7 +246,33 @@ pub fn shaped_title(rng: &mut Rng, lang: &str) -> String {
     let w = pickw(rng);
     let x = pickw(rng);
     let sep = *rng.pick(&[" ", " ", "-", ", "]);
-    match rng.below(12) {
+    match rng.below(17) {
+        12 => {
+            // a word and its two halves as words of their own ("firefly fire fly"), in either order
+            let cs: Vec<char> = w.chars().collect();
+            let k = (cs.len() / 2).max(1);
+            let (a, b): (String, String) = (cs[..k].iter().collect(), cs[k..].iter().collect());
+            if rng.chance(1, 2) { format!("{w}{s}{a}{s}{b}", w = w, a = a, b = b, s = sep) } else { format!("{a}{s}{b}{s}{w}", w = w, a = a, b = b, s = sep) }
+        }
+        13 => {
+            // a doubled letter in the middle of a word ("ballon"), alone or next to another word
+            let l = *rng.pick(&alpha);
+            let d = format!("{}{}{}{}", rand_word(rng, &alpha, 1, 4), l, l, rand_word(rng, &alpha, 1, 4));
+            if rng.chance(1, 2) { d } else { format!("{d}{s}{x}", d = d, x = x, s = sep) }
+        }
+        14 => {
+            // nine to sixteen words of one or two letters
+            (0..rng.range(9, 16)).map(|_| rand_word(rng, &alpha, 1, 2)).collect::<Vec<_>>().join(sep)
+        }
+        15 => {
+            // a one-letter word (often a function word: 'a', 'o', 'y', 'и') in front of a word, and their joined spelling
+            let one = rand_word(rng, &alpha, 1, 1);
+            if rng.chance(1, 2) { format!("{o}{s}{w}", o = one, w = w, s = sep) } else { format!("{o}{w}{s}{x}", o = one, w = w, x = x, s = sep) }
+        }
+        16 => {
+            // a later word equal to the run-together spelling of an earlier pair
+            format!("{w}{s}{x}{s}{w}{x}", w = w, x = x, s = sep)
+        }
         9 | 10 | 11 => {
             // a short first word, a long word that starts like "first word + last word", a very short last word:
             // "mit hochtoner mitteltoner e", "a room in the apartment p"
